@@ -181,3 +181,10 @@ func VerifGroupForkSwitch(ancestor *types.Group, branch []*types.Group) bool {
 	fork.destroy()
 	return ok
 }
+
+// VerifWrapSyncLogger replaces the sync logger by wrap(current logger). The group fork switch
+// logs after every group it removes, which gives a harness a point between two removals at
+// which it can start an overlapping call.
+func VerifWrapSyncLogger(wrap func(log.Logger) log.Logger) {
+	syncLogger = wrap(syncLogger)
+}
